@@ -652,7 +652,11 @@ fn server_case(seed: u64, idx: usize, thorough: bool, bin: &str, rt: &std::sync:
                 // graceful restart
                 let _ = srv.term();
                 if let Err(e) = srv.start() {
-                    out.violation("server-clean-restart-failed", format!("graceful restart failed: {}", e), desc.clone());
+                    if e.contains("exited during start-up") {
+                        out.violation("server-clean-restart-failed", format!("graceful restart failed: {}", e), desc.clone());
+                    } else {
+                        out.inconclusive(format!("case {}: restart watchdog: {}", idx, e));
+                    }
                     return;
                 }
                 cl = match srv.tenant_client("solo") {
@@ -723,9 +727,16 @@ fn server_case(seed: u64, idx: usize, thorough: bool, bin: &str, rt: &std::sync:
         }
         out.eval();
         out.distinct(&(idx, f.to_json().to_string()));
-        if s2.start().is_err() {
-            refused += 1;
-            continue;
+        match s2.start() {
+            Ok(()) => {}
+            Err(e) if e.contains("exited during start-up") => {
+                refused += 1;
+                continue;
+            }
+            Err(e) => {
+                out.inconclusive(format!("case {}: damaged-directory server neither started nor refused: {}", idx, e));
+                continue;
+            }
         }
         let got = match s2.tenant_client("solo").and_then(|mut c| srv_census(&mut c, &ids)) {
             Ok(g) => g,
